@@ -29,6 +29,12 @@
    calls the CPR binding directly - no _call_handler, so no snapshot and
    _previous_handler (and arg, previous key sequence) stay as they are; the
    CPR handler (bindings/cpr.py) only talks to the renderer.
+   [KReset t c] is the start of the next prompt on the same session:
+   PromptSession.prompt() resets the default buffer to the new document
+   (Buffer.reset: both stacks emptied) and Application.run_async calls
+   Application.reset(), whose KeyProcessor.reset() sets
+   _previous_handler = None - however the previous prompt ended (accept key,
+   app.exit() from a task, cancellation).
    The theorems are for ANY table; Model/C07_Table.v instantiates it. *)
 From Coq Require Import ZArith List Bool.
 From PTK Require Import Lib.Sx Lib.Py Model.C07_Undo.
@@ -49,7 +55,8 @@ Inductive kev :=
 | Key (h : Z) (n : Z) (t : str) (c : Z)
 | DRedo
 | UndoKey (h : Z) (n : Z) (nav : bool)
-| Cpr.
+| Cpr
+| KReset (t : str) (c : Z).
 
 Record kst := mkkst { kbuf : ust; kprev : option Z }.
 
@@ -97,6 +104,7 @@ Definition kstep (tbl : list row) (s : kst) (e : kev) : kst :=
       let b := kbody tbl s h n in
       mkkst (set_state b (utext b) (fix_vi_cursor nav b)) (Some h)
   | Cpr => mkkst (cpr_handler (kbuf s)) (kprev s)
+  | KReset t c => mkkst (ustep (kbuf s) (Reset t c)) None
   end.
 
 (* What one event does to the buffer, as a list of buffer-level operations:
@@ -118,6 +126,7 @@ Definition expand (tbl : list row) (s : kst) (e : kev) : list uop :=
       let b := kbody tbl s h n in
       expand_key tbl s h n (utext b) (fix_vi_cursor nav b)
   | Cpr => []
+  | KReset t c => [Reset t c]
   end.
 
 Definition krun (tbl : list row) (s : kst) (evs : list kev) : kst :=
@@ -137,8 +146,20 @@ Definition kev_ok (e : kev) : Prop :=
   match e with
   | Key h n t c => 0 <= c <= len t /\ 0 <= n
   | UndoKey h n nav => 0 <= n
+  | KReset t c => 0 <= c <= len t
   | DRedo | Cpr => True
   end.
+
+(* the text the current prompt started with *)
+Definition ksession_start (t0 : str) (evs : list kev) : str :=
+  fold_left (fun acc e => match e with KReset t _ => t | _ => acc end) evs t0.
+
+(* How often the undo handlers call Buffer.undo():
+     vi._undo:             for i in range(event.arg): event.current_buffer.undo()
+     named_commands.undo:  event.current_buffer.undo()
+   ([arg] is KeyPressEvent.arg: the typed count, 1 when none.) *)
+Definition undo_calls (role arg : Z) : Z :=
+  if role =? 4 then Z.max 0 arg else 1.
 
 (* "A dispatch that is not an edit leaves the text alone": what the handlers
    of class-0 bindings (the Vi undo key, the CPR handler) and the residual
@@ -149,7 +170,7 @@ Definition quiet (tbl : list row) (s : kst) (e : kev) : Prop :=
   | Key h n t c =>
       (r_act (lookup tbl h) <> 0 \/ r_cls (lookup tbl h) = 0) ->
       t = utext (kbody tbl s h n)
-  | DRedo | UndoKey _ _ _ | Cpr => True
+  | DRedo | UndoKey _ _ _ | Cpr | KReset _ _ => True
   end.
 
 Fixpoint all_quiet (tbl : list row) (s : kst) (evs : list kev) : Prop :=
@@ -174,14 +195,21 @@ Definition dec_kev (tbl : list row) (x : sx) : option kev :=
       | None => None
       end
   | L [A 2] => Some DRedo
-  | L [A 3; A h; A n; nav] =>
+  | L [A 3; A h; A arg; nav] =>
+      (* an undo key pressed with count [arg]: the handler model says how often undo() runs *)
       match as_bool nav with
       | Some nv =>
-          if (0 <=? n) && (0 <=? h) && (h <? nrows) && (r_act (lookup tbl h) =? 1)
-          then Some (UndoKey h n nv) else None
+          let r := lookup tbl h in
+          if (0 <=? h) && (h <? nrows) && (r_act r =? 1) && ((r_role r =? 4) || (r_role r =? 5))
+          then Some (UndoKey h (undo_calls (r_role r) arg) nv) else None
       | None => None
       end
   | L [A 4] => Some Cpr
+  | L [A 5; t; A c] =>
+      match as_str t with
+      | Some t' => if (0 <=? c) && (c <=? len t') then Some (KReset t' c) else None
+      | None => None
+      end
   | _ => None
   end.
 
@@ -193,7 +221,7 @@ Fixpoint run_kevs (tbl : list row) (s : kst) (evs : list kev) : list sx :=
       let s' := kstep tbl s e in
       let sv := match e with
                 | Key h _ _ _ | UndoKey h _ _ => save_before tbl (kprev s) h
-                | DRedo | Cpr => false
+                | DRedo | Cpr | KReset _ _ => false
                 end in
       L [sx_bool sv; enc_ust (kbuf s')] :: run_kevs tbl s' r
   end.
